@@ -512,7 +512,6 @@ func parseGetValue(r string) []string {
 	return out
 }
 
-
 // Portfolio: a chain of solver configurations tried in order until one gives a definite answer.
 type Portfolio struct {
 	ts       *TermStore
